@@ -14,7 +14,7 @@ func (c07) Level() string               { return "exploration" }
 func (c07) ChildParallel() int          { return 1 }
 func (c07) Exhaustive(tier string) bool { return false }
 func (c07) Rule() string {
-	return "Handshake explorer: the real Server (harness TransportListener handing out real tcpTransports over an in-memory connection) against scripted raw clients. Scripts over a 45-symbol alphabet (every session state, id variants, option choices incl. unoffered/unknown/absent, 13 credential classes, valid credentials under a wrong session state, non-session envelopes, undecodable input, truncation, disconnect, half-close, pipelining) are enumerated breadth-first to the depth bound, extending only prefixes after which the server still waits for input (suffixes after a close are unobservable); plus seeded random walks. Configurations: representative lattice of EncryptOpts x CompOpts x SchemeOpts x TLS capability x authenticator source x callback outcome tape x register mode (8 quick / 80 thorough). " +
+	return "Handshake explorer: the real Server (harness TransportListener handing out real tcpTransports over an in-memory connection) against scripted raw clients. Scripts over a 46-symbol alphabet (every session state, id variants, option choices incl. unoffered/unknown/absent, 14 credential classes, valid credentials under a wrong session state, non-session envelopes, undecodable input, truncation, disconnect, half-close, pipelining) are enumerated breadth-first to the depth bound, extending only prefixes after which the server still waits for input (suffixes after a close are unobservable); plus seeded random walks. Configurations: representative lattice of EncryptOpts x CompOpts x SchemeOpts x TLS capability x authenticator source x callback outcome tape x register mode (8 quick / 80 thorough). " +
 		"Each trace is labelled by a reference classifier (DESIGN.md Appendix A) and replayed against the implementation (every trace IS an execution of the implementation: traces_validated_against_impl = runs). Oracle: emitted states in N{0,2}A*E?(F|X)?, single session id, from = server node, verifState trace monotone, a client violation inside the exchange => exactly one failed with reason, silence, close; conforming scripts with an accepting tape reach established. " +
 		"Quiescence is decided on the connection state (server blocked reading with empty buffers), not on timeouts. Non-trivial = script that reached negotiation/authentication or contains a client violation; distinct = (config, script)."
 }
